@@ -382,9 +382,17 @@ fn case_list(rep: &mut Report, rng: &mut Rng, cfg: &GenCfg, tb: &Tables, max_len
             ("nested Value::cons", build_cons_nested(&xs, &t)),
             ("nested From<(T,U)>", build_from_tuple(&xs, &t)),
             ("Cons::new + set_car/car_mut/set_cdr/cdr_mut", build_by_mutation(&xs, &t)),
+            // iterators whose size_hint has no useful lower bound (filter, from_fn, take_while, chain of options)
+            ("Value::append(filter)", Value::append(xs.clone().into_iter().filter(|_| true), t.clone())),
+            ("Value::append(from_fn)", {
+                let mut it = xs.clone().into_iter();
+                Value::append(std::iter::from_fn(move || it.next()), t.clone())
+            }),
+            ("Value::append(take_while+flat_map)", Value::append(xs.clone().into_iter().take_while(|_| true).flat_map(Some), t.clone())),
         ];
         if matches!(t, Value::Null) {
             r.push(("Value::list", Value::list(xs.clone())));
+            r.push(("Value::list(skip_while)", Value::list(xs.clone().into_iter().skip_while(|_| false))));
         }
         r
     };
@@ -481,7 +489,16 @@ fn case_alist(rep: &mut Report, rng: &mut Rng, cfg: &GenCfg, tb: &Tables) {
                 };
                 Entry::Pair(key, gen::gen_atom(rng, cfg, tb))
             }
-            4 => Entry::Pair(Value::list(vec![Value::symbol("a")]), gen::gen_atom(rng, cfg, tb)),
+            4 => {
+                // list-valued keys one of which is a prefix of another (proper and dotted)
+                let k = rng.range(0, 3);
+                let mut items: Vec<Value> = (0..k).map(|i| Value::from(i as u32 + 1)).collect();
+                if rng.chance(1, 4) {
+                    items.insert(0, Value::symbol("a"));
+                }
+                let key = if items.is_empty() { Value::list(vec![Value::symbol("a")]) } else if rng.chance(1, 4) { Value::append(items, Value::from(9u32)) } else { Value::list(items) };
+                Entry::Pair(key, gen::gen_atom(rng, cfg, tb))
+            }
             _ => {
                 let name = *rng.pick(&names);
                 let key = match rng.below(3) {
@@ -559,6 +576,11 @@ fn case_alist(rep: &mut Report, rng: &mut Rng, cfg: &GenCfg, tb: &Tables) {
         Value::from(0u64),
         Value::from(1u64),
         Value::list(vec![Value::symbol("a")]),
+        Value::list(vec![Value::from(1u32)]),
+        Value::list(vec![Value::from(1u32), Value::from(2u32)]),
+        Value::list(vec![Value::from(1u32), Value::from(2u32), Value::from(3u32)]),
+        Value::append(vec![Value::from(1u32)], Value::from(9u32)),
+        Value::append(vec![Value::from(1u32), Value::from(2u32)], Value::from(9u32)),
         Value::Nil,
         Value::Null,
     ];
